@@ -7,13 +7,16 @@ package fragmentbuffer
 // entry is nil.
 
 //@ define wfmaps(f) (f.cache != nil && forallU16(func(s uint16) bool { return hasKey(f.cache, s) ==> f.cache[s] != nil && f.cache[s].fragmentByOffset != nil }))
-//@ define wffrags(f) forallU16(func(s uint16) bool { return hasKey(f.cache, s) ==> forallU32(func(o uint32) bool { return hasKey(f.cache[s].fragmentByOffset, o) ==> f.cache[s].fragmentByOffset[o] != nil }) })
+//@ define wffrags(f) forallU16(func(s uint16) bool { return hasKey(f.cache, s) ==> forallU32(func(o uint32) bool { return hasKey(f.cache[s].fragmentByOffset, o) ==> allocated(f.cache[s].fragmentByOffset[o]) }) })
 //@ define wfkeys(f) forallU16(func(s uint16) bool { return hasKey(f.cache, s) ==> s >= f.currentMessageSequenceNumber })
 //@ define FRAG(f, s, o) f.cache[s].fragmentByOffset[o]
 //@ define wfdata(f) forallU16(func(s uint16) bool { return hasKey(f.cache, s) ==> forallU32(func(o uint32) bool { return hasKey(f.cache[s].fragmentByOffset, o) ==>
 //@     FRAG(f, s, o).handshakeHeader.FragmentOffset == o && FRAG(f, s, o).handshakeHeader.MessageSequence == s && len(FRAG(f, s, o).data) == int(FRAG(f, s, o).handshakeHeader.FragmentLength) }) })
 //@ define wf(f) (f != nil && wfmaps(f) && wffrags(f))
 //@ define wf2(f) (wfkeys(f) && wfdata(f))
+// Buffering limits (C08): fragmentBufferMaxSize = 2000000 bytes, fragmentBufferMaxCount = 1000 fragments; one more datagram
+// (at most 8192 bytes, i.e. at most 682 fragments) may be accepted below the limit.
+//@ define capwf(f) (0 <= f.totalBufferSize && f.totalBufferSize < fragmentBufferMaxSize + 8192 && 0 <= f.totalFragmentCount && f.totalFragmentCount < fragmentBufferMaxCount + 683)
 
 //@ func New
 //@ ensures wf: wf(result)
@@ -64,6 +67,7 @@ package fragmentbuffer
 //@ requires wf: wf(f)
 //@ requires wf-keys: wfkeys(f)
 //@ requires wf-data: wfdata(f)
+//@ requires counters-in-range: 0 <= f.totalBufferSize && f.totalBufferSize <= fragmentBufferMaxSize && 0 <= f.totalFragmentCount && f.totalFragmentCount <= fragmentBufferMaxCount
 //@ ensures wf: wf(f)
 //@ ensures wf-keys: wfkeys(f)
 //@ ensures wf-data: wfdata(f)
@@ -71,21 +75,39 @@ package fragmentbuffer
 //@ ensures nothing-below-cursor: forallU16(func(s uint16) bool { return s < CUR(f) ==> !hasKey(f.cache, s) })
 //@ ensures old-message-is-retransmit: err == nil && len(buf) >= 12 && SEQ(buf) < old(CUR(f)) ==> isRetransmit
 //@ ensures ok-is-handshake: err == nil ==> isHandshake
-//@ ensures bytes-accounted: f.totalBufferSize >= old(f.totalBufferSize) && f.totalBufferSize <= old(f.totalBufferSize) + len(buf)
-//@ ensures count-accounted: f.totalFragmentCount >= old(f.totalFragmentCount) && 12*(f.totalFragmentCount - old(f.totalFragmentCount)) <= len(buf)
-//@ loop #1: wf: wf(f)
-//@ loop #1: wf-keys: wfkeys(f)
-//@ loop #1: wf-data: wfdata(f)
+//@ ensures bytes-monotone: f.totalBufferSize >= old(f.totalBufferSize)
+//@ ensures bytes-accounted: f.totalBufferSize <= old(f.totalBufferSize) + len(buf)
+//@ ensures count-accounted: f.totalFragmentCount >= old(f.totalFragmentCount) && f.totalFragmentCount - old(f.totalFragmentCount) <= len(buf) && 12*(f.totalFragmentCount - old(f.totalFragmentCount)) <= len(buf)
 //@ loop #1: cursor-kept: CUR(f) == old(CUR(f))
 //@ loop #1: consumed: sameArray(buf, old(buf)) && offsetOf(buf) >= offsetOf(old(buf)) && offsetOf(buf) + len(buf) == offsetOf(old(buf)) + len(old(buf))
 //@ loop #1: first-seen: offsetOf(buf) > offsetOf(old(buf)) && len(old(buf)) >= 12 && SEQ(old(buf)) < CUR(f) ==> isRetransmit
-//@ loop #1: bytes-accounted: f.totalBufferSize >= old(f.totalBufferSize) && f.totalBufferSize + len(buf) <= old(f.totalBufferSize) + len(old(buf))
-//@ loop #1: count-accounted: f.totalFragmentCount >= old(f.totalFragmentCount) && 12*(f.totalFragmentCount - old(f.totalFragmentCount)) + len(buf) <= len(old(buf))
+//@ loop #1: bytes-monotone: f.totalBufferSize >= old(f.totalBufferSize)
+//@ loop #1: bytes-accounted: f.totalBufferSize <= old(f.totalBufferSize) + len(old(buf)) && f.totalBufferSize - old(f.totalBufferSize) <= len(old(buf)) - len(buf)
+//@ loop #1: count-accounted: f.totalFragmentCount >= old(f.totalFragmentCount) && f.totalFragmentCount - old(f.totalFragmentCount) <= len(old(buf))
+//@     && 12*(f.totalFragmentCount - old(f.totalFragmentCount)) <= len(old(buf)) - len(buf)
+//@ loop #1: wf: wf(f)
+//@ loop #1: wf-keys: wfkeys(f)
+//@ loop #1: wf-data: wfdata(f)
 //@ end
 
 //@ func FragmentBuffer.Push
 //@ requires wf: wf(f)
+//@ requires wf-keys: wfkeys(f)
+//@ requires wf-data: wfdata(f)
+//@ requires within-limits: capwf(f)
 //@ ensures wf: wf(f)
+//@ ensures wf-keys: wfkeys(f)
+//@ ensures wf-data: wfdata(f)
+//@ ensures cursor-kept: CUR(f) == old(CUR(f))
+//@ ensures nothing-below-cursor: forallU16(func(s uint16) bool { return s < CUR(f) ==> !hasKey(f.cache, s) })
+//@ ensures over-limit-refused: old(f.totalBufferSize) + len(buf) >= fragmentBufferMaxSize || old(f.totalFragmentCount) >= fragmentBufferMaxCount ==> err != nil && !isHandshake
+//@ ensures over-limit-changes-nothing: old(f.totalBufferSize) + len(buf) >= fragmentBufferMaxSize || old(f.totalFragmentCount) >= fragmentBufferMaxCount ==> f.totalBufferSize == old(f.totalBufferSize) && f.totalFragmentCount == old(f.totalFragmentCount) && len(f.cache) == old(len(f.cache))
+//@ ensures not-handshake-changes-nothing: err == nil && !isHandshake ==> f.totalBufferSize == old(f.totalBufferSize) && f.totalFragmentCount == old(f.totalFragmentCount) && len(f.cache) == old(len(f.cache))
+//@ ensures bytes-bounded: f.totalBufferSize >= old(f.totalBufferSize) && (f.totalBufferSize == old(f.totalBufferSize) || f.totalBufferSize < fragmentBufferMaxSize)
+//@ ensures count-bounded: f.totalFragmentCount >= old(f.totalFragmentCount) && (f.totalFragmentCount == old(f.totalFragmentCount) || old(f.totalFragmentCount) < fragmentBufferMaxCount)
+//@     && f.totalFragmentCount - old(f.totalFragmentCount) <= len(buf) && 12*(f.totalFragmentCount - old(f.totalFragmentCount)) <= len(buf)
+//@ ensures within-limits: len(buf) <= 8192 ==> capwf(f)
+//@ ensures accepted-below-limit: isHandshake ==> f.totalBufferSize < fragmentBufferMaxSize
 //@ end
 
 //@ func FragmentBuffer.AdvanceTo
